@@ -148,3 +148,12 @@ prop("C04", modules=["args"],
               "_normalized_json is summarised by nj(obj): its independence of dict insertion order (sorted keys) is NOT proved",
               "normalize = _decode o _encode: _decode and idempotence are not under contract"],
      assumptions=["parameter names are distinct strings (inspect.signature)", "class facts of the argument domain (datetime is a date; list / dict / dates / memento functions / primitives pairwise disjoint)"])
+
+PPS = "storage_base:DefaultCodec.PicklePartitionStrategy.store"
+prop("C17", modules=["partition"],
+     functions=[PPS + "@inmemory", PPS + "@ondisk", PPS + "@with-parent",
+                "partition:InMemoryPartition.get", "partition:InMemoryPartition.list_keys", "storage_filesystem:OnDiskPartition.get", "storage_filesystem:OnDiskPartition.list_keys",
+                "storage_base:DefaultCodec.PicklePartition.get", "storage_base:DefaultCodec.PicklePartition.list_keys"],
+     design_ref="DESIGN.md section 6, C17",
+     trusted=["the serialised index carries exactly the entries of the dict (JSON round trip of the index assumed)", "Codec.store / BlobStrategy.store: C07"],
+     assumptions=["a partition's own interface (list_keys(False) = its own keys each once, get(k) = value_of(p, k)) is summarised; each class's get / list_keys is proved separately"])
